@@ -40,7 +40,10 @@ func c08Pipeline(g *gen, o genOpts, gete bool) []wire.Cmd {
 			g.opaque += 16
 			out = append(out, wire.Cmd{Op: g.pick([]string{"noop", "version", "stats"}), Opaque: g.opaque, Port: c.Port})
 		case 2:
-			if gete && o.Binary {
+			// gete: supported by the L1-only orchestrator; the L1/L2 orchestrators refuse it with an
+			// error reply (whose shape is not judged: the request is not a supported one there),
+			// but whatever follows on the connection must still be answered correctly
+			if o.Binary {
 				g.opaque += 16
 				k := 1 + g.rng.Intn(3)
 				gc := wire.Cmd{Op: "gete", Opaque: g.opaque, NoopEnd: g.rng.Intn(2) == 0, Port: c.Port}
@@ -135,6 +138,9 @@ func rawTextDiff(items []wire.Item) string {
 	return ""
 }
 
+// geteSupported: only the L1-only orchestrator over a memcached-style backend answers gete.
+func geteSupported(p *harness.Proxy) bool { return !p.Cfg.L2 && p.Cfg.L1Kind == "std" }
+
 func countWord(n int) string {
 	switch {
 	case n == 0:
@@ -227,6 +233,7 @@ func runPipeline(p *harness.Proxy, binary bool, cmds []wire.Cmd, closedLoop bool
 		}
 	}
 	<-werr
+	unsupported := 0
 	for i, c := range all {
 		var obs wire.Result
 		if binary {
@@ -235,6 +242,10 @@ func runPipeline(p *harness.Proxy, binary bool, cmds []wire.Cmd, closedLoop bool
 			obs = wire.InterpretText(c, per1[i])
 		}
 		var diff string
+		if c.Op == "gete" && !geteSupported(p) {
+			unsupported++
+			continue
+		}
 		if c.Op == "raw" {
 			diff = rawTextDiff(per1[i])
 		} else {
@@ -248,7 +259,7 @@ func runPipeline(p *harness.Proxy, binary bool, cmds []wire.Cmd, closedLoop bool
 			return c08Outcome{FailIdx: i, Diff: diff, Detail: map[string]interface{}{"request": c.Short(), "observed": brief(obs)}}
 		}
 	}
-	if strayN > 0 {
+	if strayN > unsupported {
 		return c08Outcome{FailIdx: len(cmds), Diff: "reply frame whose opaque belongs to no request", Detail: strayDesc}
 	}
 	if leftN > 0 {
@@ -396,7 +407,17 @@ func checkC08(tier, replay string) int {
 						cmds = g.sequence(o)
 						out = runNoSentinel(p, binary, cmds)
 					} else {
-						cmds = c08Pipeline(g, o, !cfg.L2 && cfg.L1Kind == "std")
+						cmds = c08Pipeline(g, o, true)
+						if !cfg.L2 && cfg.L1Kind != "std" {
+							// chunked / batched L1-only: gete is not meaningful (chunked panics by design)
+							var kept []wire.Cmd
+							for _, c := range cmds {
+								if c.Op != "gete" {
+									kept = append(kept, c)
+								}
+							}
+							cmds = kept
+						}
 						out = runPipeline(p, binary, cmds, mode == "one-write-per-request")
 					}
 					what := fmt.Sprintf("%s|%s|%s|%s", cfg.Name(), protoName(binary), pm.Name, mode)
